@@ -20,9 +20,14 @@ import (
 	"time"
 )
 
-const (
-	repoDir  = "/repo"
-	verifDir = "/verif"
+const verifDir = "/verif"
+
+// repoDir is the tree that is checked; outDir receives evidence and violation artefacts. Both
+// can be redirected (VERIF_REPO_DIR, VERIF_OUT_DIR) so that a seeded change can be checked on a
+// scratch copy without touching /repo or /verif/evidence; the registered commands never set them.
+var (
+	repoDir = envOr("VERIF_REPO_DIR", "/repo")
+	outDir  = envOr("VERIF_OUT_DIR", verifDir)
 )
 
 func main() {
@@ -256,9 +261,9 @@ func conclude(id string, spec *CheckSpec, tier string, all []*Result, wall time.
 		"wall_s":      wall.Seconds(),
 		"violations":  nviol,
 	}
-	os.MkdirAll(filepath.Join(verifDir, "evidence"), 0755)
+	os.MkdirAll(filepath.Join(outDir, "evidence"), 0755)
 	b, _ := json.MarshalIndent(ev, "", " ")
-	if err := os.WriteFile(filepath.Join(verifDir, "evidence", id+".json"), append(b, '\n'), 0644); err != nil {
+	if err := os.WriteFile(filepath.Join(outDir, "evidence", id+".json"), append(b, '\n'), 0644); err != nil {
 		fmt.Fprintln(os.Stderr, "vcheck: evidence:", err)
 		return 2
 	}
@@ -332,7 +337,7 @@ func oneLine(s string) string { return strings.Join(strings.Fields(s), " ") }
 func mustJSON(v any) string { b, _ := json.Marshal(v); return string(b) }
 
 func writeArtefact(id, part string, v *Violation) string {
-	dir := filepath.Join(verifDir, "violations", id)
+	dir := filepath.Join(outDir, "violations", id)
 	os.MkdirAll(dir, 0755)
 	h := sha256.Sum256([]byte(sigKey(v.Kind, v.Check, v.Signature)))
 	path := filepath.Join(dir, hex.EncodeToString(h[:6])+".json")
